@@ -11,11 +11,21 @@
 (*           to IDs in place; a second retrieval crashed (fix 2823404)     *)
 (*   dirty   D3: greedy_search() wrote default size ranges into the        *)
 (*           caller's parameter object (fix ec1db9f)                       *)
-(* Every call is one action; its logged answer is either "fresh" (what the *)
-(* same call answers as the first call on a freshly built object), the     *)
-(* result list of the last search, an error, or - in the unrepaired        *)
-(* design - a crash / an answer computed from altered parameters.          *)
-(* hist is the behaviour handed to the replayer.                           *)
+(*   cfg     the values the caller's parameter object currently holds in   *)
+(*           the fields that are read at call time (result cap, size       *)
+(*           ranges, tolerances): "A" at construction; the caller may      *)
+(*           assign the other set of values ("B") and back at any time     *)
+(*           (Reconfigure is the caller's step, not a call on the object)  *)
+(*   cached  "R" (never in the code; seeded regressions C02_i / C03_i):    *)
+(*           bounds derived from those fields are computed at first use    *)
+(*           and kept, so later answers follow the configuration of the    *)
+(*           first use.  "R" \in Fixes = no such cache.                     *)
+(* Every call is one action; its logged answer is either "fresh_<cfg>"     *)
+(* (what the same call answers as the first call on an object freshly      *)
+(* built with configuration cfg), the result list of the last search (run  *)
+(* under the configuration of that time), an error, or - in the            *)
+(* unrepaired designs - a crash / an answer computed from altered or stale *)
+(* parameters.  hist is the behaviour handed to the replayer.              *)
 (***************************************************************************)
 EXTENDS Integers, Sequences, FiniteSets, TLC, Json
 
@@ -31,45 +41,68 @@ RangeDependent == {"treatment_group_size_range", "count_max_designs", "treatment
                    "treatment_groups_first", "control_groups_first"}
 Searches == {"exh", "greedy"}
 
-VARIABLES last, mapped, dirty, ans, hist
-vars == <<last, mapped, dirty, ans, hist>>
+Cfgs == {"A", "B"}
+Other(c) == IF c = "A" THEN "B" ELSE "A"
 
-Init == last = "none" /\ mapped = FALSE /\ dirty = FALSE /\ ans = <<"none", "none">> /\ hist = <<>>
+VARIABLES last, mapped, dirty, cfg, cached, ans, hist
+vars == <<last, mapped, dirty, cfg, cached, ans, hist>>
+
+Init == /\ last = "none" /\ mapped = FALSE /\ dirty = FALSE /\ cfg = "A" /\ cached = "none"
+        /\ ans = <<"none", "none">> /\ hist = <<>>
 
 Log(call, answer) == hist' = Append(hist, [call |-> call, answer |-> answer]) /\ ans' = <<call, answer>>
 
+\* the configuration a range-dependent computation actually uses
+Used == IF "R" \in Fixes \/ cached = "none" THEN cfg ELSE cached
+Touch == cached' = (IF "R" \in Fixes THEN "none" ELSE IF cached = "none" THEN cfg ELSE cached)
+
 Query(q) ==
-  /\ Log(q, IF dirty /\ q \in RangeDependent THEN "altered" ELSE "fresh")
-  /\ UNCHANGED <<last, mapped, dirty>>
+  /\ IF q \in RangeDependent
+     THEN /\ Log(q, IF dirty THEN "altered" ELSE IF Used = cfg THEN "fresh_" \o cfg ELSE "stale")
+          /\ Touch
+     ELSE Log(q, "fresh_" \o cfg) /\ UNCHANGED cached
+  /\ UNCHANGED <<last, mapped, dirty, cfg>>
 
 \* a search stores fresh (unmapped) designs and returns them through the retrieval path
 Search(s) ==
-  /\ last' = s
+  /\ last' = s \o "_" \o cfg
   /\ dirty' = (dirty \/ (s = "greedy" /\ "D3" \notin Fixes))
   /\ mapped' = ("D2" \notin Fixes)          \* the search itself ends with one retrieval
-  /\ Log(s, IF dirty THEN "altered" ELSE "fresh")
+  /\ Log(s, IF dirty THEN "altered" ELSE IF Used = cfg THEN "fresh_" \o cfg ELSE "stale")
+  /\ Touch
+  /\ UNCHANGED cfg
 
 Retrieve ==
   /\ IF last = "none" THEN Log("search_results", "error")
      ELSE IF mapped THEN Log("search_results", "crash")
      ELSE Log("search_results", "last_" \o last)
   /\ mapped' = (mapped \/ (last # "none" /\ "D2" \notin Fixes))
-  /\ UNCHANGED <<last, dirty>>
+  /\ UNCHANGED <<last, dirty, cfg, cached>>
+
+\* the caller assigns the other values to the call-time fields of its parameter object
+Reconfigure ==
+  /\ cfg' = Other(cfg)
+  /\ Log("reconfigure", "none")
+  /\ UNCHANGED <<last, mapped, dirty, cached>>
 
 Next == /\ Len(hist) < MaxLen
         /\ \/ \E q \in Queries : Query(q)
            \/ \E s \in Searches : Search(s)
            \/ Retrieve
+           \/ Reconfigure
 Spec == Init /\ [][Next]_vars
 
 \* ---------------------------------------------------------------- C10
 \* every answer is the fresh one (or the last search's list, or the error a fresh object gives too).
 \* Stated on `ans` (the last call and answer), which is part of the VIEW, so that the exhaustive run with the
 \* history hidden still evaluates it in every reachable abstract state.
-Memo == ans[2] \in {"none", "fresh", "error", "last_exh", "last_greedy"}
+Memo == ans[2] \in {"none", "error"} \cup {"fresh_" \o c : c \in Cfgs}
+                  \cup {"last_" \o s \o "_" \o c : s \in Searches, c \in Cfgs}
+\* a query or search answers for the configuration in force when it is made
+AnswersCurrentConfiguration == (ans[1] \in Queries \cup Searches) => ans[2] = "fresh_" \o cfg
 ErrorOnlyWithoutSearch == (ans[2] = "error") => (ans[1] = "search_results" /\ last = "none")
 RetrievalAfterSearchSucceeds == (ans[1] = "search_results" /\ last # "none") => ans[2] = "last_" \o last
 ParamsUntouched == ~dirty
-View == <<last, mapped, dirty, ans>>
+View == <<last, mapped, dirty, cfg, cached, ans>>
 Emit == (Len(hist) = MaxLen) => PrintT(ToJson(hist))
 =============================================================================
